@@ -278,3 +278,32 @@ def class_accessor_units(env, cfg, ck):
         (tr, vr), (td, vd) = ck.call(lambda: X.angvec()), ck.call(lambda: X.angvec(unit='deg'))
         ck.eq('angvec:theta', td, tr * k, tol=1e-9)
         ck.eq('angvec:axis', vd, vr, tol=1e-12)
+
+
+@contract('C15', targets=['spatialmath.twist.Twist3.exp', 'spatialmath.twist.Twist2.exp'], configs=product(dim=[3, 2]), domain=False)
+def twist_exp_theta_forms_and_units(env, cfg, ck):
+    """Twist.exp(theta, units): theta as scalar, list, tuple or 1-D array gives the same motions; degrees = radians *
+    pi/180 in every form; an unknown unit is rejected in every form"""
+    sm, np = env.sm, env.np
+    if cfg['dim'] == 3:
+        S = sm.Twist3.Revolute(env.unitvec('w', 3), env.reals('q', 3, -1e3, 1e3))
+    else:
+        S = sm.Twist2.Revolute(env.reals('q', 2, -1e3, 1e3))
+    t = [env.real('t0', -360, 360), env.real('t1', -360, 360)]
+    for x in t:
+        env.assume(x * x >= 1e-12)
+    tr = [x * env.pi / 180 for x in t]
+    sc = 1 + A.normsq(np, S.v)
+    ck.eq('scalar:deg=rad', ck.call(S.exp, t[0], 'deg').A, ck.call(S.exp, tr[0], 'rad').A, tol=1e-12, scale=sc)
+    ck.eq('scalar:default-is-rad', ck.call(S.exp, tr[0]).A, ck.call(S.exp, tr[0], 'rad').A, tol=1e-12, scale=sc)
+    ref = ck.call(S.exp, np.array(tr))
+    ck.true('vector:len', len(ref) == 2)
+    for form in ('list', 'tuple', 'array'):
+        r = ck.attempt(form + ':deg', lambda: S.exp(vec_form(env, t, form), 'deg'))
+        if r is not None:
+            ck.true(form + ':deg:len', len(r) == 2)
+            if len(r) == 2:
+                for i in range(2):
+                    ck.eq('%s:deg=rad:%d' % (form, i), r.data[i], ref.data[i], tol=1e-12, scale=sc)
+        ck.raises(lambda: S.exp(vec_form(env, t, form), 'grad'))
+    ck.raises(lambda: S.exp(t[0], 'grad'))
